@@ -245,6 +245,9 @@ def _install_sym():
         if CTX['steps'] == 1:
             return INF
         T = S.Sym.lift(CTX['T'])
+        if CTX.get('inline'):
+            # inline refinement: all parameters are rational constants and so is the step, (k-1) dt < T < k dt
+            return T * Fr(2, 2 * CTX['steps'] - 1)
         key = ('c', T.c) if T.c is not None else ('t', T.t.get_id())
         if key not in CTX['dts']:
             d = S.R('DT%d' % len(CTX['dts']))
@@ -782,6 +785,7 @@ def _refine_inline(env, fA, exA, fB, exB, names, ns, L):
         CTX['si_inline'] = K.SymIntegration(contract=False)
     sj = CTX['si_inline']
     _activate(sj)
+    CTX['inline'] = True
     try:
         for i in (0, 1):
             vv = {n: S.C(v) for n, v in _shift(names, None, i).items()}
@@ -791,6 +795,7 @@ def _refine_inline(env, fA, exA, fB, exB, names, ns, L):
             fb = _call(fB, _args(exB, vv), ns, L)
             _same_spectrum(env, fa, fb, 'inline-point%d:fs' % i)
     finally:
+        CTX['inline'] = False
         _activate(CTX['si'])
 
 
